@@ -118,6 +118,8 @@ class Blk:
             return self.call(node)
         if isinstance(node, ast.Tuple):
             return V("T", [self.ev(e) for e in node.elts])
+        if isinstance(node, ast.List):
+            return V("L", [self.ev(e) for e in node.elts])
         raise U(node, "unsupported expression")
 
     def test(self, node):
@@ -220,16 +222,21 @@ class Blk:
                         raise U(e, "matrix entry is not a number")
                     out[(i, j)] = v
             return V("M", out, n)
-        if f == "diag_blocks" and len(args) == 1 and isinstance(args[0], ast.List):
+        if f == "diag_blocks" and len(args) == 1:
             out, off = {}, 0
-            for e in args[0].elts:
-                m = self.ev(e)
+            lst = self.ev(args[0])
+            if lst.kind != "L":
+                raise U(node, "diag_blocks of something that is not a list")
+            for m in lst.val:
                 if m.kind != "M":
-                    raise U(e, "diag_blocks of a non-matrix")
+                    raise U(node, "diag_blocks of a non-matrix")
                 for (i, j), x in m.val.items():
                     out[(i + off, j + off)] = x
                 off += m.n
             return V("M", out, off)
+        if f == "self.index_func" and not args and len(node.keywords) == 1 and node.keywords[0].arg is None \
+                and ast.unparse(node.keywords[0].value) == "{**self.param_dic, **extra}":
+            return self.env["<Neff>"]         # the value of the user's index function for this mode's settings
         if f == "self.Neff" and not args and [ast.unparse(k.value) for k in node.keywords] == ["self.param_dic"]:
             return self.env["<Neff>"]         # the value of the user's index function
         if f == "deepcopy" and len(args) == 1:
@@ -266,11 +273,29 @@ class Blk:
                 return None
             if isinstance(st.value, ast.Constant):
                 return None
+            c = st.value
+            if isinstance(c, ast.Call) and isinstance(c.func, ast.Attribute) and c.func.attr == "append" and len(c.args) == 1:
+                lst = self.ev(c.func.value)
+                if lst.kind != "L":
+                    raise U(st, "append to something that is not a list")
+                lst.val.append(self.ev(c.args[0]))       # the OBJECT is stored, not a copy
+                return None
             raise U(st, "unsupported expression statement")
         if isinstance(st, ast.Return):
             return self.ev(st.value)
         if isinstance(st, ast.If):
             return self.run(st.body if self.test(st.test) else st.orelse)
+        if isinstance(st, ast.Expr) and False:
+            pass
+        if isinstance(st, ast.For) and ast.unparse(st.iter) == "self.allowed.items()" and not st.orelse:
+            # the loop over the allowed modes, unrolled for the configured mode list; the index function's value in
+            # iteration k is the k-th configured index
+            for k, nval in enumerate(self.env["<modes>"]):
+                self.env["<Neff>"] = nval
+                r = self.run(st.body)
+                if r is not None:
+                    return r
+            return None
         if isinstance(st, ast.Assign) and len(st.targets) == 1:
             tg = st.targets[0]
             t = ast.unparse(tg)
@@ -304,7 +329,7 @@ class Blk:
                     if rs or cs or v.kind not in "IRC":
                         raise U(st, "a number can only be assigned to one entry")
                     new[(rows[0], cols[0])] = v
-                self.env[base] = V("M", new, m.n)
+                m.val = new           # IN PLACE: every alias of the array (a list it was appended to, another name) sees it
                 return None
         raise U(st, "unsupported statement")
 
@@ -368,6 +393,13 @@ def translate(repo: str) -> str:
     m = init_then_create("Waveguide", {"L": R("L"), "n": V("C", "(nr, ni)"), "wl": R("wl0"),
                                        "self.param_dic['wl']": R("wl")})
     out.append(emit("Waveguide_src", "(L nr ni wl : R)", m)[0])
+
+    # UserWaveguide with two allowed modes: only create_S is executed (the constructor's pin table is C13/C16 matter)
+    expect_args("UserWaveguide", "__init__", ["self", "L", "func", "param_dic", "allowedmodes"])
+    b = Blk({"self.L": R("L"), "self.param_dic['wl']": R("wl"), "<modes>": [R("n0"), R("n1")], "mode": V("S", "m"),
+             "extra": V("S", "x")})
+    r = b.run(body("UserWaveguide", "create_S"))
+    out.append(emit("UserWaveguide2_src", "(L n0 n1 wl : R)", r if r is not None else b.env.get("self.S"))[0])
 
     expect_args("PhaseShifter", "__init__", ["self", "param_name", "param_default"])
     m = init_then_create("PhaseShifter", {"param_name": V("S", "PS"), "param_default": R("PS0"),
